@@ -485,81 +485,221 @@ def snapshot(v, depth=0):
 # ---------------------------------------------------------------------------------------------
 # The shipped HTML controls
 
-def build_control(rec: Dict[str, Any], b: Builder):
-  """(object to render, texts that must be present) for one record of HtmlGen.Controls.
+def control_desc(rec: Dict[str, Any], b: Builder) -> Dict[str, Any]:
+  """A plain description (nested dicts) of the control of one HtmlGen.Controls record, and of the control it
+  becomes through its update API (key 'final'; equal to the initial one when rec['upd'] == 0).
 
-  Label texts / tab contents given as str are HTML content by the controls' own documentation
-  ("the text or HTML content"), so they carry no metacharacters; a Tooltip's str content is data
-  (the control escapes it) and carries the document's metacharacter class."""
-  from pyglove.core.views.html import Html               # pylint: disable=import-outside-toplevel
-  from pyglove.core.views.html import controls as C      # pylint: disable=import-outside-toplevel
+  Label texts / tab contents given as str are HTML content by the controls' own documentation, so they carry no
+  metacharacters; a Tooltip's str content is data (the control escapes it) and carries the metacharacter class."""
+  import copy   # pylint: disable=import-outside-toplevel
   n = [0]
 
   def text(prefix):
     n[0] += 1
     return f'{prefix}{n[0]}txt'
-  expect: List[str] = []
 
-  def label(cls=C.Label, tooltip=0, link=0, interactive=0, styled=0):
-    t = text('label')
-    expect.append(t)
-    kw: Dict[str, Any] = {}
-    if tooltip:
-      d = b.datum('str')
-      expect.append(d)
-      kw['tooltip'] = d
-    if link:
-      kw['link'] = 'http://example.com/x'
-      kw['target'] = '_blank'
-    if styled:
-      kw['css_classes'] = ['c1', 'c2']
-      kw['styles'] = dict(color='red', font_weight='bold')
-    if interactive:
-      kw['interactive'] = True
-    return cls(t, **kw)
+  def label(kind='label', tooltip=0, link=0, interactive=0, styled=0):
+    return {'k': kind, 'text': text('label'), 'tooltip': b.datum('str') if tooltip else None,
+            'link': 'http://example.com/x' if link else None, 'target': '_blank' if link else None,
+            'css_classes': ['c1', 'c2'] if styled else [], 'styles': dict(color='red', font_weight='bold') if styled else {},
+            'interactive': bool(interactive)}
 
   k, p1, p2, p3, p4 = rec['ctl'], rec['p1'], rec['p2'], rec['p3'], rec['p4']
+  upd = rec.get('upd', 0)
   if k == 'tab':
-    tabs = []
-    for i in range(p2):
-      lt = text('tab')
-      expect.append(lt)
+    def tab(i):
       if p4 == 0:
-        content = text('content')
-        expect.append(content)
+        content = {'k': 'text', 'text': text('content')}
       elif p4 == 1:
-        d = b.datum('str')
-        expect.append(d)
-        content = pg.Dict(v=d)
+        content = {'k': 'value', 'datum': b.datum('str')}
       else:
         content = label(tooltip=1)
-      tabs.append(C.Tab(lt, content, name=f'name{i}' if i % 2 else None))
-    ctl = C.TabControl(tabs, selected=p3, tab_position='left' if p1 else 'top')
+      return {'label': text('tab'), 'content': content, 'name': f'name{i}' if i % 2 else None}
+    d = {'k': 'tab', 'tabs': [tab(i) for i in range(p2)], 'selected': p3, 'pos': 'left' if p1 else 'top'}
+    f = copy.deepcopy(d)
+    if upd:
+      f['tabs'].append(tab(7))                    # append
+      f['tabs'].insert(0, tab(8))                 # insert before the first
+      f['selected'] = len(f['tabs']) - 1          # select the last
   elif k in ('label', 'badge'):
-    ctl = label(C.Label if k == 'label' else C.Badge, p1, p2, p3, p4)
+    d = label(k, p1, p2, p3, p4)
+    f = copy.deepcopy(d)
+    if upd:
+      f['text'] = text('newlabel')
+      if f['tooltip'] is not None:
+        f['tooltip'] = b.datum('str')
+      if f['link'] is not None:
+        f['link'] = 'http://example.com/y'
+      f['styles'] = dict(f['styles'], color='blue')
+      f['css_classes'] = [c for c in f['css_classes'] if c != 'c1'] + ['c3']
   elif k == 'labelgroup':
-    ctl = C.LabelGroup([label(tooltip=i % 2) for i in range(p1)], name=label() if p2 else None,
-                       **({'interactive': True} if p3 else {}))
+    d = {'k': 'labelgroup', 'labels': [label(tooltip=i % 2, interactive=p3) for i in range(p1)],
+         'name': label(interactive=p3) if p2 else None, 'interactive': bool(p3)}
+    f = copy.deepcopy(d)
+    if upd:
+      for lb in f['labels'] + ([f['name']] if f['name'] else []):
+        lb['text'] = text('newlabel')
+        if lb['tooltip'] is not None:
+          lb['tooltip'] = b.datum('str')
   elif k == 'tooltip':
-    if p1:
-      t = text('tip')
-      expect.append(t)
-      content = Html.element('b', [t])
-    else:
-      content = b.datum('str')
-      expect.append(content)
-    ctl = C.Tooltip(content, for_element='.x', **({'interactive': True} if p2 else {}))
+    d = {'k': 'tooltip', 'html': bool(p1), 'content': text('tip') if p1 else b.datum('str'), 'interactive': bool(p2)}
+    f = copy.deepcopy(d)
+    if upd:
+      f['content'] = text('newtip') if p1 else b.datum('str')
   elif k == 'progress':
-    subs = [C.SubProgress(f'sub{i}', value=i + 1) for i in range(p1)]
-    ctl = C.ProgressBar(subs, total=10 if p2 else None, **({'interactive': True} if p3 else {}))
+    d = {'k': 'progress', 'subs': [{'name': f'sub{i}', 'value': i + 1} for i in range(p1)],
+         'total': 10 if p2 else None, 'interactive': bool(p3)}
+    f = copy.deepcopy(d)
+    if upd:
+      for i, sb in enumerate(f['subs']):
+        sb['value'] = sb['value'] + 1 if i % 2 == 0 else 5       # increment() / update(5)
+      if f['total'] is None:
+        f['total'] = 20
   else:
     raise ValueError(k)
-  if rec['wrap'] == 1:
-    return pg.Dict(ctl=ctl), expect
-  if rec['wrap'] == 2:
-    return [ctl], expect
-  return ctl, expect
+  d['final'] = f
+  return d
 
+
+def construct_control(d: Dict[str, Any]):
+  """The control described by d, built with its constructor."""
+  from pyglove.core.views.html import Html               # pylint: disable=import-outside-toplevel
+  from pyglove.core.views.html import controls as C      # pylint: disable=import-outside-toplevel
+
+  def label(x):
+    kw: Dict[str, Any] = {}
+    if x['tooltip'] is not None:
+      kw['tooltip'] = x['tooltip']
+    if x['link'] is not None:
+      kw['link'], kw['target'] = x['link'], x['target']
+    if x['css_classes']:
+      kw['css_classes'] = list(x['css_classes'])
+    if x['styles']:
+      kw['styles'] = dict(x['styles'])
+    if x['interactive']:
+      kw['interactive'] = True
+    return (C.Badge if x['k'] == 'badge' else C.Label)(x['text'], **kw)
+
+  def tab(t):
+    c = t['content']
+    content = c['text'] if c['k'] == 'text' else pg.Dict(v=c['datum']) if c['k'] == 'value' else label(c)
+    return C.Tab(t['label'], content, name=t['name'])
+
+  k = d['k']
+  if k == 'tab':
+    return C.TabControl([tab(t) for t in d['tabs']], selected=d['selected'], tab_position=d['pos'])
+  if k in ('label', 'badge'):
+    return label(d)
+  if k == 'labelgroup':
+    return C.LabelGroup([label(x) for x in d['labels']], name=label(d['name']) if d['name'] else None,
+                        **({'interactive': True} if d['interactive'] else {}))
+  if k == 'tooltip':
+    content = Html.element('b', [d['content']]) if d['html'] else d['content']
+    return C.Tooltip(content, for_element='.x', **({'interactive': True} if d['interactive'] else {}))
+  if k == 'progress':
+    return C.ProgressBar([C.SubProgress(x['name'], value=x['value']) for x in d['subs']], total=d['total'],
+                         **({'interactive': True} if d['interactive'] else {}))
+  raise ValueError(k)
+
+
+def update_control(ctl, d: Dict[str, Any]) -> None:
+  """Brings the control built from d to d['final'] through its PUBLIC update API only."""
+  from pyglove.core.views.html import Html               # pylint: disable=import-outside-toplevel
+  from pyglove.core.views.html import controls as C      # pylint: disable=import-outside-toplevel
+  f, k = d['final'], d['k']
+
+  def update_label(lb, old, new):
+    kw: Dict[str, Any] = {}
+    if new['text'] != old['text']:
+      kw['text'] = new['text']
+    if new['tooltip'] != old['tooltip']:
+      kw['tooltip'] = new['tooltip']
+    if new['link'] != old['link']:
+      kw['link'] = new['link']
+    if new['styles'] != old['styles']:
+      kw['styles'] = {x: y for x, y in new['styles'].items() if old['styles'].get(x) != y}
+    add = [c for c in new['css_classes'] if c not in old['css_classes']]
+    rem = [c for c in old['css_classes'] if c not in new['css_classes']]
+    if add:
+      kw['add_class'] = add
+    if rem:
+      kw['remove_class'] = rem
+    lb.update(**kw)
+
+  if k == 'tab':
+    helper = dict(d, tabs=[f['tabs'][-1], f['tabs'][0]])
+    built = construct_control(dict(helper, selected=0)).tabs
+    ctl.append(built[0].clone(deep=True))
+    ctl.insert(0, built[1].clone(deep=True))
+    ctl.select(f['selected'])
+  elif k in ('label', 'badge'):
+    update_label(ctl, d, f)
+  elif k == 'labelgroup':
+    for lb, old, new in zip(ctl.labels, d['labels'], f['labels']):
+      update_label(lb, old, new)
+    if d['name']:
+      update_label(ctl.name, d['name'], f['name'])
+  elif k == 'tooltip':
+    ctl.update(Html.element('b', [f['content']]) if d['html'] else f['content'])
+  elif k == 'progress':
+    for i, (sb, new) in enumerate(zip(ctl.subprogresses, f['subs'])):
+      if i % 2 == 0:
+        sb.increment()
+      else:
+        sb.update(new['value'])
+    if d['total'] is None:
+      ctl.update(total=f['total'])
+    else:
+      ctl.update()
+  del C
+
+
+def expected_texts(d: Dict[str, Any]) -> List[str]:
+  """Texts the rendering of the control described by d must contain."""
+  out: List[str] = []
+
+  def lab(x):
+    out.append(x['text'])
+    if x['tooltip'] is not None:
+      out.append(x['tooltip'])
+  k = d['k']
+  if k == 'tab':
+    for t in d['tabs']:
+      out.append(t['label'])
+      c = t['content']
+      if c['k'] == 'text':
+        out.append(c['text'])
+      elif c['k'] == 'value':
+        out.append(c['datum'])
+      else:
+        lab(c)
+  elif k in ('label', 'badge'):
+    lab(d)
+  elif k == 'labelgroup':
+    for x in d['labels'] + ([d['name']] if d['name'] else []):
+      lab(x)
+  elif k == 'tooltip':
+    out.append(d['content'])
+  return out
+
+
+_CONTROL_ID = re.compile(r'control-\d+')
+_CLASS_ATTR = re.compile(r'class="([^"]*)"')
+_CLASS_FIELD = re.compile(r'css_classes=\[([^\]]*)\]')
+
+
+def normalize_ids(doc: str) -> str:
+  """Element ids of controls are derived from id(object): renumbered by first appearance."""
+  seen: Dict[str, str] = {}
+  doc = _CONTROL_ID.sub(lambda m: seen.setdefault(m.group(0), f'control-#{len(seen)}'), doc)
+  # the order of the tokens of a class attribute means nothing (a control appends its own class when bound)
+  doc = _CLASS_ATTR.sub(lambda m: 'class="' + ' '.join(sorted(m.group(1).split())) + '"', doc)
+  # ... also where the css_classes field of a control is printed (tooltip of an enclosing value)
+  return _CLASS_FIELD.sub(lambda m: 'css_classes=[' + ','.join(sorted(x.strip() for x in m.group(1).split(','))) + ']', doc)
+
+
+def wrap_control(ctl, wrap: int):
+  return pg.Dict(ctl=ctl) if wrap == 1 else [ctl] if wrap == 2 else ctl
 
 # ---------------------------------------------------------------------------------------------
 # Faults: renderings / option scopes that carry options and raise part-way
